@@ -77,6 +77,24 @@ def validate_script(g, script, op_lines):
     return compared, None, None
 
 
+def op_lines(trace_files, sids):
+    """the trace lines of the client steps (ev.k "Op" / "Restart") of the given scripts, in order, per script id"""
+    ops = collections.defaultdict(list)
+    for tf in trace_files:
+        try:
+            f = open(tf)
+        except OSError:
+            continue
+        with f:
+            for line in f:
+                if '"k":"Op"' not in line and '"k":"Restart"' not in line:
+                    continue
+                r = json.loads(line)
+                if r["sid"] in sids and r["ev"]["k"] in ("Op", "Restart"):
+                    ops[r["sid"]].append(r)
+    return ops
+
+
 def validate(work, scripts, trace_files):
     """Validate all gated scripts found in the trace files. Returns a summary dict."""
     by_id = {s["id"]: s for s in scripts if s.get("gated") and "root" in s}
